@@ -68,7 +68,96 @@ def push_sq0(job, ev, ctx):
     return viol
 
 
+def lock_static(job, ev, ctx):
+    """C12 static part / C11 lock order: extract the CFGs of the current tree (tools/lockcfg), let TLC explore
+    every path of every function over spec/LockDiscipline.tla, report lock leaks / self deadlocks / bad unlocks,
+    then check the lock-order relation for cycles (TLC evaluates an acyclicity assumption)."""
+    import os, re, shutil, subprocess, tempfile
+    api = ctx['api']
+    viol = []
+    env = dict(os.environ, GOFLAGS='-mod=mod', GOPROXY='off', GOSUMDB='off')
+    os.makedirs(api['BUILD'], exist_ok=True)
+    p = subprocess.run(['go', 'build', '-o', api['BUILD'] + '/lockcfg', '.'], cwd='/verif/tools/lockcfg', env=env, capture_output=True, text=True)
+    if p.returncode != 0:
+        raise api['Infra']('lockcfg build failed: ' + p.stderr[-2000:])
+    w = tempfile.mkdtemp(prefix='lockd.')
+    try:
+        p = subprocess.run([api['BUILD'] + '/lockcfg', w + '/LockCFG.tla'], env=env, capture_output=True, text=True)
+        if p.returncode != 0:
+            raise api['Infra']('lockcfg failed (the tree does not type-check?): ' + (p.stdout + p.stderr)[-2000:])
+        m = re.search(r'(\d+) functions analysed, (\d+) with lock activity', p.stdout)
+        nfun, nlock = (int(m.group(1)), int(m.group(2))) if m else (0, 0)
+        shutil.copy('/verif/spec/LockDiscipline.tla', w)
+        shutil.copy('/verif/spec/mc/LockDiscipline.cfg', w)
+        cmd = ['java', '-XX:+UseParallelGC', '-Xss64m', '-cp', '/opt/veriftools/tla/tla2tools.jar:/opt/veriftools/tla/CommunityModules-deps.jar',
+               'tlc2.TLC', '-noGenerateSpecTE', '-metadir', w + '/meta', '-workers', '1', '-config', 'LockDiscipline.cfg', 'LockDiscipline']
+        try:
+            p = subprocess.run(cmd, cwd=w, capture_output=True, text=True, timeout=900)
+        except subprocess.TimeoutExpired:
+            raise api['Infra']('LockDiscipline TLC timeout')
+        out = p.stdout + p.stderr
+        if 'Model checking completed' not in out:
+            raise api['Infra']('LockDiscipline TLC did not complete:\n' + out[-3000:])
+        st = re.search(r'(\d+) states generated, (\d+) distinct', out)
+        flat = re.sub(r'\s+', ' ', out)
+        bugs = sorted(set(re.findall(r'<< "LOCKBUG", "([^"]*)", "([^"]*)", (\d+), "([^"]*)" >>', flat)))
+        edges = sorted(set((a, b) for a, b, f, l in re.findall(r'<< "LOCKEDGE", "([^"]*)", "([^"]*)", "([^"]*)", (\d+) >>', flat)))
+        where = {}
+        for a, b, f, l in re.findall(r'<< "LOCKEDGE", "([^"]*)", "([^"]*)", "([^"]*)", (\d+) >>', flat):
+            where.setdefault((a, b), '%s:%s' % (f, l))
+        ev['tlc_runs'].append({'module': 'LockDiscipline', 'cfg': 'LockDiscipline.cfg (+ generated LockCFG.tla)',
+                               'generated': int(st.group(1)), 'distinct': int(st.group(2)), 'violated': [b[3] for b in bugs],
+                               'functions_analysed': nfun, 'functions_with_lock_activity': nlock, 'lock_order_edges': len(edges)})
+        ev['states'] += int(st.group(2))
+        ev['transitions'] += int(st.group(1))
+        ev['evaluations'] += nlock
+        ev['distinct_nontrivial'] += nlock
+        ev['samples'].append({'static': 'every path of %d functions with lock activity (of %d analysed)' % (nlock, nfun),
+                              'lock_order_edges': ['%s -> %s (%s)' % (a, b, where[(a, b)]) for a, b in edges][:12]})
+        if job.get('want') in (None, 'bugs'):
+            for f, file, line, bad in bugs:
+                viol.append({'kind': 'lockbug', 'key': 'lockbug %s %s' % (f, bad),
+                             'what': '%s (%s:%s): %s - a path through this function violates the lock discipline' % (f, file, line, bad)})
+        if job.get('want') in (None, 'order'):
+            # lock order: TLC evaluates acyclicity of the extracted relation
+            mod = ['---- MODULE LockOrder ----', 'EXTENDS Integers, FiniteSets, TLC', 'VARIABLE x',
+                   'Edges == {' + ', '.join('<<"%s", "%s">>' % e for e in edges) + '}',
+                   'Nodes == {e[1] : e \\in Edges} \\cup {e[2] : e \\in Edges}',
+                   'RECURSIVE Reach(_, _)',
+                   'Reach(S, n) == IF n = 0 THEN S ELSE LET T == S \\cup {e[2] : e \\in {d \\in Edges : d[1] \\in S}} IN IF T = S THEN S ELSE Reach(T, n - 1)',
+                   'OnCycle == {n \\in Nodes : n \\in Reach({e[2] : e \\in {d \\in Edges : d[1] = n}}, Cardinality(Nodes))}',
+                   'ASSUME PrintT(<<"LOCKCYCLE", OnCycle>>)', 'Init == x = 0', 'Next == UNCHANGED x', 'Spec == Init /\\ [][Next]_x', '====']
+            open(w + '/LockOrder.tla', 'w').write('\n'.join(mod))
+            open(w + '/LockOrder.cfg', 'w').write('SPECIFICATION Spec\n')
+            p = subprocess.run(cmd[:-3] + ['-config', 'LockOrder.cfg', 'LockOrder'], cwd=w, capture_output=True, text=True, timeout=300)
+            o2 = re.sub(r'\s+', ' ', p.stdout + p.stderr)
+            mc = re.search(r'<< "LOCKCYCLE", (\{[^}]*\}) >>', o2)
+            if not mc:
+                raise api['Infra']('lock order evaluation failed:\n' + (p.stdout + p.stderr)[-2000:])
+            cyc = re.findall(r'"([^"]+)"', mc.group(1))
+            if cyc:
+                viol.append({'kind': 'lockorder', 'key': 'lockorder ' + ' '.join(sorted(cyc)),
+                             'what': 'lock order cycle among classes %s; edges: %s' % (sorted(cyc), ['%s -> %s (%s)' % (a, b, where[(a, b)]) for a, b in edges if a in cyc and b in cyc])})
+    finally:
+        shutil.rmtree(w, ignore_errors=True)
+    return viol
+
+
 CHECKS = {
+    'C12': {
+        'level': 'model_checking',
+        'jobs': [
+            {'type': 'custom', 'name': 'lock-static', 'fn': lock_static, 'want': 'bugs'},
+            T('MC_Core', 'Core_C14_sync.cfg'),
+            C('errors', 'TestErrorsReal', 'TraceErrors', trivial_len=3),
+            C('core', 'TestCore', 'TraceCore', n={'quick': 60, 'thorough': 800}),
+        ],
+        'rule': 'static: one case per function with lock activity (every CFG path explored by TLC); dynamic: one trace per error scenario '
+                '(TLS configuration, address in use, refused dial, handshake loss) with a follow-up call after every outcome, plus the core scenarios '
+                '(rejections in Attaching / by the protocol / during AddPipe, listener and dialer sides)',
+        'assumptions': ASSUME_COMMON + ['the CFG extractor (go/cfg + go/types) is faithful; branch conditions are ignored (every CFG path is taken as feasible); '
+                                        'calls through interfaces and function values are not followed'],
+    },
     'C01': {
         'level': 'model_checking',
         'jobs': [
